@@ -9,6 +9,7 @@ mod gen;
 mod pure;
 mod ack;
 mod conc;
+mod locks;
 
 use std::io::Write;
 use std::sync::Mutex;
@@ -165,6 +166,7 @@ fn main() {
         "pure" => { pure::run(seed, &out, args.iter().any(|a| a == "--thorough")); true }
         "ack" => { ack::run(&out, arg(&args, "--polls").and_then(|s| s.parse().ok()).unwrap_or(2), arg(&args, "--schedule")); true }
         "conc" => conc::run(seed, &out, &args),
+        "locks" => locks::run(seed, &out, arg(&args, "--millis").and_then(|s| s.parse().ok()).unwrap_or(1500)),
         _ => { eprintln!("unknown mode"); false }
     };
     std::process::exit(if ok { 0 } else { 3 });
